@@ -18,6 +18,7 @@ extern "C" void wencry_verif_point(int, int) {}
 
 struct EncRes { bool ok; bytes file; bool input_intact; };
 static EncRes real_enc(int T, int c, int h, const bytes &key, const bytes &seed, const bytes &plain) {
+  trace_case("file", "encrypt T=" + S(T) + " B=" + S(BSZ) + " H=" + S(HB) + " c=" + S(c) + " h=" + S(h) + " key=" + hex(key) + " seed=" + hex(seed) + " plain=" + hex(plain));
   MemFile in(plain), out;
   FILE *fi = in.openr(), *fo = out.openw();
   alignas(16) unsigned char k[16]; memcpy(k, key.data(), 16);
@@ -30,6 +31,7 @@ static EncRes real_enc(int T, int c, int h, const bytes &key, const bytes &seed,
 }
 struct DecRes { bool ok; bytes out; bool input_intact; };
 static DecRes real_dec(int T, const bytes &key, const bytes &file, bool with_out = true) {
+  trace_case("file", "decrypt T=" + S(T) + " B=" + S(BSZ) + " H=" + S(HB) + " key=" + hex(key) + " file=" + hex(file));
   MemFile in(file), out;
   FILE *fi = in.openr(), *fo = with_out ? out.openw() : NULL;
   alignas(16) unsigned char k[16]; memcpy(k, key.data(), 16);
@@ -40,6 +42,7 @@ static DecRes real_dec(int T, const bytes &key, const bytes &file, bool with_out
   return r;
 }
 static DecRes real_ver(int T, const bytes &key, const bytes &file) {
+  trace_case("file", "verify T=" + S(T) + " B=" + S(BSZ) + " H=" + S(HB) + " key=" + hex(key) + " file=" + hex(file));
   MemFile in(file);
   FILE *fi = in.openr();
   alignas(16) unsigned char k[16]; memcpy(k, key.data(), 16);
